@@ -60,6 +60,11 @@ pub struct IterCase {
     /// finishes and drops it
     #[serde(default)]
     pub late: Vec<u8>,
+    /// before the real instance: a constructor that fails half-way over [SIGWINCH, bad]
+    /// (1: bad = 0 -> Err, 2: bad = 200 -> panic, 3: bad = SIGKILL -> panic). Whatever it
+    /// registered for SIGWINCH must be gone afterwards (the late deliveries then include SIGWINCH).
+    #[serde(default)]
+    pub failed_ctor: u8,
 }
 
 pub fn strategy(with_close: bool) -> BoxedStrategy<IterCase> {
@@ -98,11 +103,12 @@ pub fn strategy(with_close: bool) -> BoxedStrategy<IterCase> {
         ),
         schedule_strategy(200),
         prop_oneof![1 => Just(vec![]), 1 => vec(0u8..3, 1..5)],
+        prop_oneof![3 => Just(0u8), 1 => 1u8..4],
     )
-        .prop_map(|(exf, consumer, polls, init, others, nested, schedule, late)| {
+        .prop_map(|(exf, consumer, polls, init, others, nested, schedule, late, failed_ctor)| {
             let n = others.len() + 1;
             let nested = nested.into_iter().map(|(t, at, sig, on)| INested { thread: t % n, at, sig, on }).collect();
-            IterCase { exf, consumer, polls, init, others, nested, schedule, late }
+            IterCase { exf, consumer, polls, init, others, nested, schedule, late, failed_ctor }
         })
         .boxed()
 }
@@ -150,6 +156,18 @@ where
 {
     let init: Vec<c_int> = case.init.iter().map(|s| SIGS[*s as usize % 3]).collect();
     let read_fd = rd.as_raw_fd();
+    if case.failed_ctor != 0 {
+        let bad = match case.failed_ctor {
+            1 => 0,
+            2 => 200,
+            _ => libc::SIGKILL,
+        };
+        let c = vsched::call("failed-new", bad as i64, 0);
+        let r = std::panic::catch_unwind(|| SignalsInfo::<E>::new(&[libc::SIGWINCH, bad]).map(|_| ()));
+        let ok = matches!(r, Ok(Ok(())));
+        vsched::ret(c, ok as i64);
+        vsched::mark("failed-ctor-done", ok as i64, 0);
+    }
     let c = vsched::call("new", 0, 0);
     for s in &init {
         vsched::mark("add-call", *s as i64, 0);
@@ -449,6 +467,7 @@ pub fn execute(case: &IterCase) -> (RunResult, CaseReport) {
         // quiescence observer
         let get_handle = get_handle.clone();
         let late = case.late.clone();
+        let failed_ctor = case.failed_ctor;
         let slot_for_observer = handle_slot.clone();
         bodies.push(Box::new(move || {
             let blocked = vsched::wait_idle();
@@ -471,6 +490,10 @@ pub fn execute(case: &IterCase) -> (RunResult, CaseReport) {
             // the world does not stop sending signals while the instance is torn down
             for s in &late {
                 sim_deliver(SIGS[*s as usize % 3], false);
+            }
+            if failed_ctor != 0 {
+                sim_deliver(libc::SIGWINCH, false);
+                sim_deliver(libc::SIGWINCH, false);
             }
         }));
     }
@@ -618,6 +641,19 @@ pub fn analyse(case: &IterCase, res: &RunResult) -> CaseReport {
             }
             if dels.iter().any(|d| d.start > gone) {
                 rep.class("delivery-after-instance-drop");
+            }
+        }
+    }
+
+    {
+        if let Some(fpos) = log.iter().position(|r| matches!(&r.item, Item::Mark { name, .. } if *name == "failed-ctor-done")) {
+            rep.class("failed-constructor-first");
+            for d in dels.iter().filter(|d| d.sig == libc::SIGWINCH as i64) {
+                if let Some(s) = d.stored {
+                    if d.start > fpos {
+                        rep.viol("C01/ran-after-removal", format!("delivery {} of SIGWINCH ran an action registered by a constructor that had failed and whose half-built instance was dropped (store at log position {})", d.id, s));
+                    }
+                }
             }
         }
     }
@@ -801,7 +837,7 @@ pub fn analyse(case: &IterCase, res: &RunResult) -> CaseReport {
     rep.count("switches", res.switches);
     rep.count("deliveries", dels.len() as u64);
     rep.count("yields", yields.len() as u64);
-    let nt01 = !case.late.is_empty();
+    let nt01 = !case.late.is_empty() || case.failed_ctor != 0;
     rep.nontrivial_by = vec![("C09".into(), nt09), ("C10".into(), nt10), ("C11".into(), nt11), ("C03".into(), nt09), ("C01".into(), nt01), ("C18".into(), log.iter().any(|r| matches!(r.item, Item::Blocked { what: "mutex", .. })))];
     rep.nontrivial = nt09 || nt10 || nt11;
     // C03 on iterator actions: reuse the op-kind rule inside deliveries
